@@ -87,6 +87,39 @@ fn dump_body<'tcx>(tcx: TyCtxt<'tcx>, types: &Interner, did: DefId, body: &Body<
         }
         let term = data.terminator();
         let mut t = m.terminator(term);
+        // name the variants a SwitchInt on an enum discriminant distinguishes
+        if let TerminatorKind::SwitchInt { discr, targets } = &term.kind {
+            if let Some(dp) = discr.place() {
+                for st in data.statements.iter().rev() {
+                    if let StatementKind::Assign(b) = &st.kind {
+                        let (place, rv) = &**b;
+                        if *place == dp {
+                            if let Rvalue::Discriminant(ep) = rv {
+                                let ety = ep.ty(&body.local_decls, tcx).ty;
+                                if let ty::Adt(adt, _) = ety.kind() {
+                                    if adt.is_enum() {
+                                        let mut names = Vec::new();
+                                        for (v, _) in targets.iter() {
+                                            let mut nm = String::from("?");
+                                            for (vi, d) in adt.discriminants(tcx) {
+                                                if d.val == v {
+                                                    nm = adt.variant(vi).name.to_string();
+                                                }
+                                            }
+                                            names.push(J::s(nm));
+                                        }
+                                        t.push(("variants", J::Arr(names)));
+                                        t.push(("enum", J::s(def_path(tcx, adt.did()))));
+                                        t.push(("of", m.place(ep)));
+                                    }
+                                }
+                            }
+                            break;
+                        }
+                    }
+                }
+            }
+        }
         t.push(("l", J::Num(span_line(tcx, term.source_info.span))));
         if term.source_info.span.from_expansion() {
             if let Some((_, n)) = outer_macro(term.source_info.span) {
